@@ -116,3 +116,9 @@ def run(ctx, R):
     n9 = C.reuse_obligations(ctx, R, c05.run, 'R7.9',
                              select=lambda o: o.rule in ('R5.2', 'R5.3'))
     R.count('R7.9', n9, 20)
+    # R7.10: the consumer whose generation is compared-and-swapped inside
+    # the write is the one the request's generation was compared with (the
+    # obligations of R6.4): otherwise two writes based on one generation can
+    # both be accepted
+    n10 = C.reuse_obligations(ctx, R, c06.r64, 'R7.10')
+    R.count('R7.10', n10, 4)
